@@ -20,7 +20,7 @@ def fun(*ts):
     return t
 
 
-def gen_operators(rng, spec, n=None, p_constraints=0.35):
+def gen_operators(rng, spec, n=None, p_constraints=0.35, allow_prod=True):
     """list of (name, schema) designed to compose: monomorphic, polymorphic, constrained, higher-order, constants"""
     bases = spec.bases() or [UNIT]
     comps = spec.compounds(builtin=False)
@@ -31,7 +31,7 @@ def gen_operators(rng, spec, n=None, p_constraints=0.35):
         return (rng.choice(bases), ())
 
     def conc(d=1):
-        return I.conc(G.gen_ty(rng, spec, d, p_special=0.04, allow_fun=False))
+        return I.conc(G.gen_ty(rng, spec, d, p_special=0.04, allow_fun=False, allow_prod=allow_prod))
 
     for i in range(n):
         name = OPNAMES[i]
@@ -63,8 +63,11 @@ def gen_operators(rng, spec, n=None, p_constraints=0.35):
                 cy = (c, tuple(y if j == 0 else base() for j in range(spec.arity(c))))
                 forms += [fun(fun(x, y), cx, cy), fun(fun(x, x, y), cx, y)]
             s = {"nvars": 2, "nwild": 0, "body": rng.choice(forms), "constraints": []}
-        else:
+        elif allow_prod:
             s = I.gen_schema(rng, spec, p_constraints=p_constraints)
+        else:
+            x = ('v', 0)
+            s = {"nvars": 1, "nwild": 0, "body": fun(x, conc(1), x), "constraints": [('sub', x, base(), False)] if rng.random() < 0.5 else []}
         out.append((name, s))
     return out
 
